@@ -18,6 +18,7 @@ pub mod c15;
 pub mod c16;
 pub mod c17;
 pub mod c18;
+pub mod c19;
 pub mod c20;
 
 pub fn run(ctx: &mut Ctx) -> bool {
@@ -40,6 +41,7 @@ pub fn run(ctx: &mut Ctx) -> bool {
         "C16" => c16::run(ctx),
         "C17" => c17::run(ctx),
         "C18" => c18::run(ctx),
+        "C19" => c19::run(ctx),
         "C20" => c20::run(ctx),
         _ => return false,
     }
@@ -50,6 +52,7 @@ pub fn worker(args: &[String]) -> i32 {
     match args.first().map(String::as_str) {
         Some("timeout") => c12::timeout_worker(&args[1..]),
         Some("udp") => c17::udp_worker(&args[1..]),
+        Some("explorer") => c19::explorer_worker(&args[1..]),
         _ => 64,
     }
 }
